@@ -2991,6 +2991,7 @@ func (x *c14ctx) padBound(PF *ssa.Function, fMin, fMax *types.Var, overhead int6
 // ---------------------------------------------------------------------------
 
 func checkC14(c *Check) {
+	lockBalanceRule(c, "C14", pObfs)
 	x := c14resolve(c)
 	if x == nil {
 		return
